@@ -693,7 +693,11 @@ struct Runner {
       if constexpr (kind == 2) unodb::this_thread().qsbr_resume();
     }
     views.clear();
-    if constexpr (kind == 2) { unodb::this_thread().quiescent(); unodb::this_thread().quiescent(); }
+    if constexpr (kind == 2) {
+      unodb::this_thread().quiescent();
+      unodb::this_thread().quiescent();
+      if (const std::string bad = qsbr_idle_selftest(); !bad.empty()) die("qsbr-state-inconsistent", bad);
+    }
     // final content check + accounting after quiescence
     if (!tainted)
     for (auto& kv : model) {
